@@ -31,4 +31,4 @@ def run(ctx):
                 "while the others take representatives; distinct = distinct sequence of token/atom classes + verdict")
     ctx.assumptions += ["sources have at most 2 rules and 4 factors per source",
                         "tokens are separated by one blank, rules by a newline",
-                        "cl.NewEx on the partial AST of a source the parser rejected is recorded as drift, not judged"]
+                        "cl.NewEx on the partial AST of a source the parser rejected is outside the statement (no source-level entry point does that): counted in the evidence, not judged"]
